@@ -565,13 +565,15 @@ def run_impl(sc):
     return flat, obs
 
 
-def item_ids(W, it):
-    """leaf part ids of an item"""
+def item_info(W, it):
     if it is None:
-        return []
-    if isinstance(it, W.Batch):
-        return [p.id - W.base for p in it.parts]
-    return [it.id - W.base]
+        return None
+    batch = isinstance(it, W.Batch)
+    leaves = [p.id - W.base for p in it.parts] if batch else [it.id - W.base]
+    return dict(id=it.id - W.base, leaves=leaves, batch=batch, q=to_ticks(it.quality),
+                v=sum(to_ticks(p.value) for p in it.parts) if batch else to_ticks(it.value),
+                hist=[d.id - W.base for d in it._routing_history], gpath=[d.id - W.base for d in it._group_pathing],
+                leaf_hists=[[d.id - W.base for d in p._routing_history] for p in (it.parts if batch else [it])])
 
 
 def observe(W, x, st, devs, pools, new):
@@ -582,10 +584,8 @@ def observe(W, x, st, devs, pools, new):
         k = kind_code(d)
         e = dict(kind=k, block=bool(d._block_input))
         if k in (2, 3, 4, 5, 6, 7):
-            e['part'] = item_ids(W, d._part)
-            e['out'] = item_ids(W, d._output)
-            e['part_item'] = None if d._part is None else d._part.id - W.base
-            e['out_item'] = None if d._output is None else d._output.id - W.base
+            e['part'] = item_info(W, d._part)
+            e['out'] = item_info(W, d._output)
             e['waiting_ds'] = bool(d._waiting_for_downstream_space)
             e['cycle'] = to_ticks(d._cycle_time)
         if k == 3:
@@ -595,29 +595,37 @@ def observe(W, x, st, devs, pools, new):
             e['uptime'] = to_ticks(d.uptime)
             e['utilization'] = to_ticks(d.utilization_time)
         if k == 4:
-            e['buf'] = [[to_ticks(t), item_ids(W, it), it.id - W.base] for t, it in d._buffer]
+            e['buf'] = [[to_ticks(t), item_info(W, it)] for t, it in d._buffer]
             e['level'] = d._level
             e['capacity'] = None if d._capacity == float('inf') else int(d._capacity)
             e['min_delay'] = to_ticks(d._minimum_delay)
         if k == 5:
             e['produced'] = d._produced_parts
             e['budget'] = None if d._max_produced_parts == float('inf') else int(d._max_produced_parts)
+            e['generated'] = d._part_generator._generated_part_counter
             e['value'] = to_ticks(d.value)
         if k == 6:
             e['received'] = d._received_parts_count
             e['value'] = to_ticks(d.value)
             e['collected'] = [p.id - W.base for p in d.collected_parts]
         if k == 7:
-            e['inprog'] = item_ids(W, d._in_progress_batch)
+            e['inprog'] = item_info(W, d._in_progress_batch)
             e['batch_size'] = d._output_batch_size
         e['up'] = [u.id - W.base for u in d._upstream]
         e['down'] = [u.id - W.base for u in d._downstream]
+        e['value_hist'] = [[to_ticks(t), to_ticks(dl), to_ticks(v)] for _, t, dl, v in d._value_history]
+        e['dev_value'] = to_ticks(d._value)
         o['devices'][i] = e
+    o['maints'] = {i: dict(util=to_ticks(m._utilization), value=to_ticks(m.value), queue=len(m._request_queue),
+                           active=[[wo.target.id - W.base, to_ticks(wo.needed_capacity)] for wo in m._active_requests],
+                           capacity=None if m._capacity == float('inf') else to_ticks(m._capacity))
+                   for i, m in W.maints.items()}
     o['queue'] = [[to_ticks(ev.time), ev.asset_id - W.base if ev.asset_id > 0 else ev.asset_id] + act_code(W, ev) + [bool(ev.cancelled)]
                   for ev in env._events]
     o['paused'] = [[to_ticks(ev.time), ev.asset_id - W.base if ev.asset_id > 0 else ev.asset_id] + act_code(W, ev) for ev in env._paused_events]
     o['next_id'] = W.Asset._id_counter - W.base
     o['cblog'] = [list(c) for c in W.cblog]
+    o['waiting_res'] = [[cb.__self__.id - W.base, req_list(r)] for r, cb in W.rm._waiting_requests]
     return o
 
 
